@@ -190,12 +190,97 @@ theorem delete_range_terminates (m : Store) (L : Layout) (n : Nat) (hn : L.lengt
     (deleteRange m (pre ++ List.replicate n (some L)) start end_).isSome = true :=
   deleteRangeLoop_eventually_const_terminates end_ L n hn pre start m []
 
-/-- NOT proved (kept as statements): termination of ReverseScan for eventually constant layouts (symmetric
-    argument with the split points below the cursor), and of the batch calls for scripts whose batches
-    eventually all succeed. -/
-def reverse_scan_terminates_stmt : Prop :=
-  ∀ (m : Store) (L : Layout) (n : Nat), L.length < n → ∀ (pre : SScript) (start end_ : Bytes) (limit : Nat) (keyOnly : Bool),
-    (reverseScan m (pre ++ List.replicate n (some L)) start end_ limit keyOnly).isSome = true
+theorem reverse_scan_terminates (m : Store) (L : Layout) (n : Nat) (hn : L.length < n) (pre : SScript)
+    (start end_ : Bytes) (limit : Nat) (keyOnly : Bool) :
+    (reverseScan m (pre ++ List.replicate n (some L)) start end_ limit keyOnly).isSome = true :=
+  rscanLoop_eventually_const_terminates m _ end_ limit L n hn pre start [] []
+
+/-! ### total correctness for eventually constant layouts
+
+`pre` is an arbitrary history (any layouts, i.e. any splits / merges between the partial requests, and any region
+errors); after it the layout stays `L` for `n > |L|` served attempts.  Then the call RETURNS, and returns the map's
+answer. -/
+
+theorem scan_total (m : Store) (hs : m.Sorted) (L : Layout) (n : Nat) (hn : L.length < n) (pre : SScript)
+    (start end_ : Bytes) (limit : Nat) (keyOnly : Bool) :
+    ∃ tr, scan m (pre ++ List.replicate n (some L)) start end_ limit keyOnly =
+      some (((m.range start (toBound end_)).take limit).map (if keyOnly then stripValue else id), tr) := by
+  have ht := scan_terminates m L n hn pre start end_ limit keyOnly
+  obtain ⟨⟨res, tr⟩, h⟩ := Option.isSome_iff_exists.mp ht
+  exact ⟨tr, by rw [h, scan_eq_take_limit_range m hs _ _ _ _ _ _ _ h]⟩
+
+theorem reverse_scan_total (m : Store) (hs : m.Sorted) (L : Layout) (n : Nat) (hn : L.length < n) (pre : SScript)
+    (start end_ : Bytes) (limit : Nat) (keyOnly : Bool) :
+    ∃ tr, reverseScan m (pre ++ List.replicate n (some L)) start end_ limit keyOnly =
+      some (((m.rrange (some start) end_).take limit).map (if keyOnly then stripValue else id), tr) := by
+  have ht := reverse_scan_terminates m L n hn pre start end_ limit keyOnly
+  obtain ⟨⟨res, tr⟩, h⟩ := Option.isSome_iff_exists.mp ht
+  exact ⟨tr, by rw [h, reverse_scan_eq_take_limit_rrange m hs _ _ _ _ _ _ _ h]⟩
+
+theorem checksum_total (m : Store) (hs : m.Sorted) (L : Layout) (n : Nat) (hn : L.length < n) (pre : SScript)
+    (start end_ : Bytes) :
+    ∃ tr, checksum m (pre ++ List.replicate n (some L)) start end_ = some (csOf (m.range start (toBound end_)), tr) := by
+  have ht := checksum_terminates m L n hn pre start end_
+  obtain ⟨⟨c, tr⟩, h⟩ := Option.isSome_iff_exists.mp ht
+  exact ⟨tr, by rw [h, checksum_eq_fold m hs _ _ _ _ _ h]⟩
+
+theorem delete_range_total (m : Store) (L : Layout) (n : Nat) (hn : L.length < n) (pre : SScript) (start end_ : Bytes) :
+    ∃ tr, deleteRange m (pre ++ List.replicate n (some L)) start end_ = some (m.eraseRange start (toBound end_), tr) := by
+  have ht := delete_range_terminates m L n hn pre start end_
+  obtain ⟨⟨res, tr⟩, h⟩ := Option.isSome_iff_exists.mp ht
+  exact ⟨tr, by rw [h, (delete_range_exact m _ _ _ _ _ h).1]⟩
+
+/-! ### no duplicates, no gaps (consequences of "the first `limit` pairs of the range") -/
+
+/-- the keys returned by Scan are strictly ascending: no key twice, none out of order -/
+theorem scan_keys_strictly_ascending (m : Store) (hs : m.Sorted) (sc : SScript) (start end_ : Bytes) (limit : Nat)
+    (keyOnly : Bool) (res : List KV) (tr : STrace) (h : scan m sc start end_ limit keyOnly = some (res, tr)) :
+    (res.map (·.1)).Pairwise (· < ·) := by
+  rw [scan_eq_take_limit_range m hs _ _ _ _ _ _ _ h, List.map_map]
+  have hk : ((fun x : KV => x.1) ∘ (if keyOnly then stripValue else id)) = (fun x : KV => x.1) := by
+    funext x; cases keyOnly <;> simp [stripValue]
+  rw [hk, List.pairwise_map]
+  exact List.Pairwise.sublist (List.take_sublist _ _) (OMap.range_sorted hs _ _)
+
+/-- the keys returned by ReverseScan are strictly descending -/
+theorem reverse_scan_keys_strictly_descending (m : Store) (hs : m.Sorted) (sc : SScript) (start end_ : Bytes)
+    (limit : Nat) (keyOnly : Bool) (res : List KV) (tr : STrace)
+    (h : reverseScan m sc start end_ limit keyOnly = some (res, tr)) :
+    (res.map (·.1)).Pairwise (fun a b => b < a) := by
+  rw [reverse_scan_eq_take_limit_rrange m hs _ _ _ _ _ _ _ h, List.map_map]
+  have hk : ((fun x : KV => x.1) ∘ (if keyOnly then stripValue else id)) = (fun x : KV => x.1) := by
+    funext x; cases keyOnly <;> simp [stripValue]
+  rw [hk, List.pairwise_map]
+  refine List.Pairwise.sublist (List.take_sublist _ _) ?_
+  unfold OMap.rrange
+  rw [List.pairwise_reverse]
+  exact OMap.range_sorted hs _ _
+
+/-- no gap: what Scan returns is a prefix of the range, and something of the range is left out only when the
+    limit was reached -/
+theorem scan_no_gap (m : Store) (hs : m.Sorted) (sc : SScript) (start end_ : Bytes) (limit : Nat)
+    (res : List KV) (tr : STrace) (h : scan m sc start end_ limit false = some (res, tr)) :
+    ∃ rest, m.range start (toBound end_) = res ++ rest ∧ (rest ≠ [] → res.length = limit) := by
+  have := scan_eq_take_limit_range m hs _ _ _ _ _ _ _ h
+  simp only [Bool.false_eq_true, if_false, List.map_id] at this
+  refine ⟨(m.range start (toBound end_)).drop limit, by rw [this, List.take_append_drop], ?_⟩
+  intro hne
+  rw [this, List.length_take]
+  have : limit < (m.range start (toBound end_)).length := by
+    apply Decidable.byContradiction
+    intro hc
+    exact hne (List.drop_eq_nil_of_le (by omega))
+  omega
+
+/-- ReverseScan returns the LAST `limit` pairs of `[end, start)`, in reverse order -/
+theorem reverse_scan_eq_last_limit_reversed (m : Store) (hs : m.Sorted) (sc : SScript) (start end_ : Bytes) (limit : Nat)
+    (res : List KV) (tr : STrace) (h : reverseScan m sc start end_ limit false = some (res, tr)) :
+    res = ((m.range end_ (some start)).drop ((m.range end_ (some start)).length - limit)).reverse := by
+  have := reverse_scan_eq_take_limit_rrange m hs _ _ _ _ _ _ _ h
+  simp only [Bool.false_eq_true, if_false, List.map_id] at this
+  rw [this]
+  unfold OMap.rrange
+  exact List.take_reverse
 
 /-! ### non-vacuity: a sorted three-key map, a split in the middle of the call, a region error, a re-grouped batch -/
 
@@ -212,5 +297,16 @@ example : ∃ r, batchPut m0 [⟨[[0x6c]], [false, true]⟩, ⟨[], [true]⟩] [
 example : ∃ r, batchDelete m0 [⟨[[0x6c]], [true, true]⟩] [[0x6b], [0x70]] = some r := ⟨_, rfl⟩
 example : ∃ r, RawKV.get m0 [none, some [[0x6c]]] [0x6d] = some r := ⟨_, rfl⟩
 example : ∃ r, cas m0 [some []] [0x6d] (some [2]) [9] = some r := ⟨_, rfl⟩
+
+-- total correctness: the hypothesis `L.length < n` is satisfiable and the conclusion is about a run with a region error,
+-- a split between the partial requests and then a constant layout
+theorem m0_sorted : m0.Sorted := by
+  unfold m0; exact OMap.insert_sorted (OMap.insert_sorted (OMap.insert_sorted OMap.empty_sorted _ _) _ _) _ _
+example : ∃ tr, scan m0 ([some [[0x6c]], none, some [[0x6c], [0x6e]]] ++ List.replicate 2 (some [[0x6e]])) [] [] 2 false =
+    some ([([0x6b], [1]), ([0x6d], [2])], tr) :=
+  scan_total m0 m0_sorted [[0x6e]] 2 (by decide) _ [] [] 2 false
+example : ∃ tr, reverseScan m0 ([none, some [[0x6c]]] ++ List.replicate 3 (some [[0x6c], [0x6e]])) [0x7a] [] 2 false =
+    some ([([0x70], [3]), ([0x6d], [2])], tr) :=
+  reverse_scan_total m0 m0_sorted [[0x6c], [0x6e]] 3 (by decide) _ [0x7a] [] 2 false
 
 end CGV.Props.C11
